@@ -159,7 +159,7 @@ def oracle(c, ans):
 def check(run):
     rng = run.rng
     cases = []
-    reps = 12 if run.tier == "thorough" else 3
+    reps = 14 if run.tier == "thorough" else 5
     for _ in range(40 if run.tier == "thorough" else 8):
         cases.append(mk_case(base_program(rng), "well-formed", expect=None, nfaults=0))
     for f in FAULTS:
